@@ -11,6 +11,7 @@
 //                                     max_width indent_width newline_style=<nl:auto|unix|windows>, [build]
 //                                     strip_comments=<strip:0|1>:
 //                                     OK <analyzer-errors> <hex-sv> <hex-map-json>      | ERR (parse error)
+//                                     APANIC (analyzer panicked) | EPANIC <analyzer-errors> (emitter panicked)
 //   M <nl> <hex-text>                 veryl_migrator: old-grammar Parser + Migrator::migrate:
 //                                     OK <hex-migrated-text>                            | ERR <msg> (old parser rejects)
 //   O <hex-text>                      old-grammar parse; dump what the Migrator's walker meets, in order:
@@ -127,23 +128,36 @@ fn do_emit(m: &veryl_metadata::Metadata, text: &str) -> String {
         Ok(p) => p,
         Err(_) => return "ERR".to_string(),
     };
-    let mut errors = Vec::new();
-    let mut context = Context::default();
-    errors.append(&mut analyzer.analyze_pass1("prj", &parser.veryl));
-    errors.append(&mut Analyzer::analyze_post_pass1());
-    errors.append(&mut analyzer.analyze_pass2(&parser.veryl, &mut context, None));
-    let nerr = errors.iter().filter(|e| e.is_error()).count();
-    let mut emitter = veryl_emitter::Emitter::new(
-        m,
-        "prj",
-        &PathBuf::from("case.veryl"),
-        &PathBuf::from("case.sv"),
-        &PathBuf::from("case.sv.map"),
-    );
-    emitter.emit(&parser.veryl, text);
-    let sv = emitter.as_str().to_string();
-    let map = emitter.source_map().to_bytes().unwrap_or_default();
-    let map = String::from_utf8(map).unwrap_or_default();
+    // analysis and emission are isolated so that a crash can be attributed
+    let analysis = std::panic::catch_unwind(std::panic::AssertUnwindSafe(|| {
+        let mut errors = Vec::new();
+        let mut context = Context::default();
+        errors.append(&mut analyzer.analyze_pass1("prj", &parser.veryl));
+        errors.append(&mut Analyzer::analyze_post_pass1());
+        errors.append(&mut analyzer.analyze_pass2(&parser.veryl, &mut context, None));
+        errors.iter().filter(|e| e.is_error()).count()
+    }));
+    let nerr = match analysis {
+        Ok(n) => n,
+        Err(_) => return "APANIC".to_string(),
+    };
+    let emitted = std::panic::catch_unwind(std::panic::AssertUnwindSafe(|| {
+        let mut emitter = veryl_emitter::Emitter::new(
+            m,
+            "prj",
+            &PathBuf::from("case.veryl"),
+            &PathBuf::from("case.sv"),
+            &PathBuf::from("case.sv.map"),
+        );
+        emitter.emit(&parser.veryl, text);
+        let sv = emitter.as_str().to_string();
+        let map = emitter.source_map().to_bytes().unwrap_or_default();
+        (sv, String::from_utf8(map).unwrap_or_default())
+    }));
+    let (sv, map) = match emitted {
+        Ok(x) => x,
+        Err(_) => return format!("EPANIC {nerr}"),
+    };
     format!("OK {} {} {}", nerr, hex(&sv), hex(&map))
 }
 
